@@ -52,6 +52,22 @@ def run_target(job):
         res['callee_contracts'] = {k: ('target' if k in mod.TARGETS else ve.get(k, 'assumed')) for k in sorted(eng.used)}
         fast = bool(os.environ.get('VERIF_FAST'))          # development aid: no reseeding / second opinion / grounding on failures
         discharge(obls, W.axioms, timeout_ms=timeout_ms, ground_sorts=() if fast else getattr(W, 'ground_sorts', ()), second=not fast, reseed=not fast)
+        if not fast:
+            # last resort for an obligation that is still open (typically a time-out on a loaded machine): the same query with six times the budget under four more
+            # seeds - a verdict that depends on the load of the machine must not be reported; `unsat` only counts, nothing else changes
+            left = [o for o in obls if not o.canary and o.status == 'undecided']
+            try: base = json.load(open(os.path.join(os.path.dirname(os.path.dirname(os.path.abspath(__file__))), 'pyvc_baseline.json'))).get(key, {})
+            except Exception: base = {}
+            # only for a function whose source is the one the committed baseline was proved on (a changed function is reported as it stands, without long retries)
+            if 0 < len(left) <= 6 and base.get('digest') == res.get('digest'):
+                from z3 import Solver, Not, unsat
+                for o in left:
+                    ax = [] if getattr(o, 'isolated', False) else W.axioms
+                    for seed in (1, 2, 3, 5):
+                        sv = Solver(); sv.set(timeout=6 * timeout_ms, random_seed=seed); sv.set('smt.random_seed', seed); sv.add(ax); sv.add(o.hyps); sv.add(Not(o.goal))
+                        try: r = sv.check()
+                        except Exception: continue
+                        if r == unsat: o.status = 'proved'; o.backend = getattr(o, 'backend', 'z3') + ' (retry, 6x budget)'; break
         s = summary(obls)
         res.update(obligations=s['obligations'], proved=s['proved'], canaries=s['canaries'])
         for o in obls:
